@@ -111,6 +111,15 @@ def src_inv(h):
             ap.step_before_retransmission,
             lambda s: one_of(s, [STEP.SENDING_FILE_DATA, STEP.WAITING_FOR_EOF_ACK, STEP.WAITING_FOR_FINISHED]), False)))),
         ("S7.eof_code", Implies_(step_is(h, STEP.SENDING_EOF), present(p.cond_code_eof))),
+        # C11 (fresh state): before a transaction has started every per-transaction field has its constructor value
+        ("S9.fresh_before_start", And_(
+            Implies_(Not_(started), And_(
+                fp.progress == 0, isnone(p.cond_code_eof), isnone(p.finished_params), isnone(p.check_timer),
+                isnone(pa.ack_timer), pa.ack_counter == 0)),
+            Implies_(eq(st.step, STEP.IDLE), And_(
+                Not_(B(fp.metadata_only)), Not_(B(fp.empty_file)), opt(fp.file_size, lambda fs: fs == 0, False))))),
+        ("S9.idle_has_no_cfg", Implies_(eq(st.state, IDLE), And_(isnone(p.remote_cfg), Not_(B(p.closure_requested))))),
+        ("S8.check_timer_only_unacked_closure", opt(p.check_timer, lambda t: And_(eq(m, UNACK), B(p.closure_requested)), True)),
     ]
     return L
 
@@ -140,7 +149,15 @@ def inv_clauses(props=()):
     return out
 
 
+def ts_fresh(h):
+    """a transaction that is about to start (step TRANSACTION_START) still has fresh file parameters"""
+    fp = h._params.fp
+    return Implies_(step_is(h, STEP.TRANSACTION_START), And_(
+        Not_(B(fp.metadata_only)), Not_(B(fp.empty_file)), opt(fp.file_size, lambda fs: fs == 0, False)))
+
+
 REQ_INV = [("SrcInv", lambda o: inv_formula(o.self))]
+REQ_TS_FRESH = [("env", lambda o: ts_fresh(o.self))]
 DEFAULT = [("default_fault_table", default_table)]
 CONTRACTS = []
 
@@ -451,8 +468,9 @@ def _pa_limit_hit(o):
 
 
 def _in_eof_ack_wait(o):
+    # the queue is empty whenever the timer can have expired (an EOF queued in this very call has a fresh timer)
     h = o.self
-    return And_(step_is(h, STEP.WAITING_FOR_EOF_ACK), ne(h.states.state, IDLE), qempty(h))
+    return And_(step_is(h, STEP.WAITING_FOR_EOF_ACK), ne(h.states.state, IDLE), Implies_(_pa_expired(o), qempty(h)))
 
 
 def _eof_as_before(o, n):
@@ -534,7 +552,7 @@ def _check_timer_expired(o):
 
 def _waiting_for_finished(o):
     h = o.self
-    return And_(step_is(h, STEP.WAITING_FOR_FINISHED), ne(h.states.state, IDLE), qempty(h),
+    return And_(step_is(h, STEP.WAITING_FOR_FINISHED), ne(h.states.state, IDLE), Implies_(_check_timer_expired(o), qempty(h)),
                 pdu_wf(_holder_pdu(o)))
 
 
@@ -847,14 +865,16 @@ C("_get_next_transfer_seq_num", arg_types=SELF, props=("C19", "C07"), result=Non
   requires=REQ_INV,
   modifies=["self._params.pdu_conf.transaction_seq_num"],
   ensures=[
-      Clause("C19.next_provider_value_once", lambda o, n, r: len(_seq_events(n)) == 1 and And_(
-          Eq_(n.self._params.pdu_conf.transaction_seq_num.value, _seq_events(n)[0]["value"]),
+      Clause("C19.next_provider_value_once", lambda o, n, r: len(_seq_events(n)) == 1 and
+             Eq_(n.self._params.pdu_conf.transaction_seq_num.value, _seq_events(n)[0]["value"]), ("C19", "C07")),
+      Clause("C07.seq_num_width_is_provider_width", lambda o, n, r: And_(
           Eq_(n.self._params.pdu_conf.transaction_seq_num.byte_len * 8, o.self.seq_num_provider.max_bit_width),
           ubf_inv(n.self._params.pdu_conf.transaction_seq_num)), ("C19", "C07")),
   ],
   raises=[RaiseClause("C19.invalid_provider_width", ValueError, iff=True, props=("C19",), modifies=[],
                       when=lambda o: Not_(Or_(*[o.self.seq_num_provider.max_bit_width == k for k in (8, 16, 32)])))],
   effects={"seqnum"}, modular=False)
+_GET_SEQ = CONTRACTS[-1]
 
 
 C("_prepare_pdu_conf", arg_types={**SELF, "file_size": T.Opt(T.Int)}, props=("C07",), result=None,
@@ -1063,3 +1083,213 @@ C("_check_inserted_packet", arg_types={**SELF, "packet": T.Opaque}, props=("C20"
   ] + [RaiseClause(f"C10.protocol_exception.{e.__name__}", e, props=("C10", "C20"), modifies=[]) for e in PROTOCOL_EXC
        if e is not X.InvalidPduForSourceHandler],
   effects=set(), modular=True)
+
+
+# ==============================================================================================
+# C15: originating transaction id (messages to user of the put request)
+# ==============================================================================================
+from stubs.world import WORLD as _W  # noqa: E402
+
+
+def _msgs(h):
+    """(kind array, identity array, length) of the request's messages to user; kinds: 1 originating transaction id,
+    2 proxy put response (see stubs/cfdp.py)"""
+    l = val(val(h._put_req).msgs_to_user).items
+    return l.a, l.b, l.n
+
+
+def _has_kind(h, k, upto):
+    a, b, n = _msgs(h)
+    j = z3.Int(f"oi!j{k}")
+    return z3.Exists([j], z3.And(0 <= j, j < upto, a[j] == k))
+
+
+def _is_last_orig(h, tid, upto):
+    """tid is the id carried by the last originating-id message before position `upto`"""
+    a, b, n = _msgs(h)
+    j, k = z3.Int("oi!last"), z3.Int("oi!k")
+    return z3.Exists([j], z3.And(0 <= j, j < upto, a[j] == 1, z3.ForAll([k], z3.Implies(z3.And(j < k, k < upto), a[k] != 1)),
+                                 tid.source_id.value == _W.orig_id_source(b[j]), tid.seq_num.value == _W.orig_id_seq(b[j])))
+
+
+def _oi_inv(I, pre, env, idx, n):
+    h = pre.self
+    cpr, coi = I.truth(env.contains_proxy_put_response), I.truth(env.contains_originating_id)
+    oid = env.originating_id
+    return [
+        ("put_response_seen", to_z3_bool(cpr) == _has_kind(h, 2, idx)),
+        ("originating_id_seen", to_z3_bool(coi) == _has_kind(h, 1, idx)),
+        ("last_originating_id", Implies_(coi, opt(oid, lambda t: _is_last_orig(h, t, idx), False))),
+    ]
+
+
+C("_check_for_originating_id", arg_types=SELF, props=("C15",), result=T.Opt(T.Obj(TransactionId)),
+  requires=REQ_INV + [("has_request", lambda o: present(o.self._put_req))],
+  modifies=[],
+  ensures=[
+      Clause("C15.originating_id_unless_put_response", lambda o, n, r: (
+          (lambda q: (r is None) if (q is None) else (lambda a, b, ln: And_(
+              iff(Not_(isnone(r)), And_(_has_kind(o.self, 1, ln), Not_(_has_kind(o.self, 2, ln)))),
+              Implies_(Not_(isnone(r)), _is_last_orig(o.self, val(r), ln)) if val(r) is not None else True))(*_msgs(n.self)))
+          (val(n.self._put_req).msgs_to_user)), ("C15",)),
+      Clause("silent", lambda o, n, r: len([e for e in n.trace if e["kind"] != "loop_summary"]) == 0, ("C15",)),
+  ],
+  loops={0: LoopSpec(_oi_inv, modifies=[], props=("C15",),
+                     local_types={"originating_id": T.Opt(T.Obj(TransactionId)), "contains_proxy_put_response": T.Bool,
+                                  "contains_originating_id": T.Bool})},
+  effects=set(), modular=True)
+
+
+# ==============================================================================================
+# transaction start (C07 header fields, C15 Transaction indication, C16 file access, C19 sequence number)
+# ==============================================================================================
+def _env_valid(o):
+    """ASSUMED environment/configuration validity (finding F11 is outside the contracts): sequence number provider
+    width 8/16/32 bit; max_packet_len leaves room for file data and fits the 16-bit PDU length field"""
+    h = o.self
+    rc = rcfg(h)
+    w = h.seq_num_provider.max_bit_width
+    return And_(Or_(w == 8, w == 16, w == 32), rc.max_packet_len >= 4 + 8 + 8 + 4 + 8 + 2 + 16, rc.max_packet_len <= 65535,
+                opt(rc.max_file_segment_len, lambda m: m >= 1, True))
+
+
+def _ts_ind_ok(o, n):
+    es = inds(n, "transaction_indication")
+    if len(es) != 1 or len(inds(n)) != 1:
+        return False
+    par = es[0]["args"][0]
+    return And_(tid_eq(par.transaction_id, val(n.self._params.transaction_id)))
+
+
+TS_MOD = ["self._params.fp.metadata_only", "self._params.fp.empty_file", "self._params.fp.file_size",
+          "self._params.fp.segment_len", "self._params.pdu_conf.file_flag", "self._params.pdu_conf.seg_ctrl",
+          "self._params.pdu_conf.source_entity_id", "self._params.pdu_conf.dest_entity_id", "self._params.pdu_conf.crc_flag",
+          "self._params.pdu_conf.direction", "self._params.pdu_conf.transaction_seq_num", "self._params.transaction_id"]
+
+
+def _started_conjuncts(h):
+    """the invariant conjuncts that become relevant once the step leaves TRANSACTION_START"""
+    p, fp = h._params, h._params.fp
+    return And_(
+        present(p.transaction_id), conf_wf(p.pdu_conf), fp.segment_len >= 1, fp.segment_len <= 65527, fp.progress == 0,
+        opt(fp.file_size, lambda fs: fs >= 0, False),
+        Implies_(B(fp.metadata_only), And_(opt(h._put_req, lambda r: isnone(r.source_file), True), Not_(B(fp.empty_file)),
+                                           opt(fp.file_size, lambda fs: fs == 0, False))),
+        Implies_(Not_(B(fp.metadata_only)), opt(h._put_req, lambda r: Not_(isnone(r.source_file)), True)),
+        Implies_(B(fp.empty_file), opt(fp.file_size, lambda fs: fs == 0, False)))
+
+
+C("_transaction_start", arg_types=SELF, props=("C07", "C15", "C16", "C19"), result=None,
+  requires=REQ_INV + [("at_start", lambda o: And_(ne(o.self.states.state, IDLE), step_is(o.self, STEP.TRANSACTION_START))),
+                      ("env", _env_valid), ("fresh_file_params", lambda o: ts_fresh(o.self))],
+  modifies=TS_MOD,
+  ensures=[
+      Clause("C07.transaction_id_is_local_id_and_seq_num", lambda o, n, r: opt(n.self._params.transaction_id, lambda t: And_(
+          Eq_(t.source_id.value, o.self.cfg.local_entity_id.value),
+          Eq_(t.seq_num.value, n.self._params.pdu_conf.transaction_seq_num.value)), False), ("C07", "C19")),
+      Clause("C19.one_sequence_number_per_transaction", lambda o, n, r: len(_seq_events(n)) == 1 and Eq_(
+          n.self._params.pdu_conf.transaction_seq_num.value, _seq_events(n)[0]["value"]), ("C19",)),
+      Clause("C15.transaction_indication", lambda o, n, r: _ts_ind_ok(o, n), ("C15",)),
+      Clause("C07.file_size_is_filestore_size", lambda o, n, r: Implies_(Not_(B(n.self._params.fp.metadata_only)), opt(
+          n.self._params.fp.file_size, lambda fs: Eq_(fs, fs_size(FS0, src_file(o.self).p)), False)), ("C07", "C16")),
+      Clause("C07.ready_to_send", lambda o, n, r: _started_conjuncts(n.self), ("C07", "C10")),
+      Clause("C07.header_fields", lambda o, n, r: (lambda c: And_(
+          Eq_(c.source_entity_id.byte_len, c.dest_entity_id.byte_len), Eq_(c.source_entity_id.value, o.self.cfg.local_entity_id.value),
+          Eq_(c.dest_entity_id.value, val(o.self._put_req).destination_id.value),
+          Eq_(c.trans_mode, o.self._params.pdu_conf.trans_mode), eq(c.direction, Direction.TOWARDS_RECEIVER),
+          iff(eq(c.crc_flag, CrcFlag.WITH_CRC), B(rcfg(o.self).crc_on_transmission))))(n.self._params.pdu_conf), ("C07",)),
+      Clause("C16.only_filestore_queries", lambda o, n, r: all(e["op"] in ("file_exists", "file_size") for e in vfs_ops(n)) and And_(
+          *[Eq_(e["path"], src_file(o.self)) for e in vfs_ops(n)]), ("C16",)),
+      Clause("silent", lambda o, n, r: len(emitted(n)) == 0 and len(fault_cbs(n)) == 0, ("C07",)),
+  ],
+  raises=[RaiseClause("C19.source_file_vanished", X.SourceFileDoesNotExist, props=("C10", "C19"),
+                      when=lambda o: opt(val(o.self._put_req).source_file, lambda f: Not_(fs_exists(FS0, f.p)), False),
+                      iff=True, modifies=[])],
+  effects={"vfs", "user", "seqnum"}, modular=True)
+
+
+# ---------------------------------------------------------------------------------------------- file parameters
+C("_prepare_file_params", arg_types=SELF, props=("C07", "C16", "C19"), result=None,
+  requires=REQ_INV + [("at_start", lambda o: And_(ne(o.self.states.state, IDLE), step_is(o.self, STEP.TRANSACTION_START))),
+                      ("fresh_file_params", lambda o: ts_fresh(o.self))],
+  modifies=["self._params.fp.metadata_only", "self._params.fp.empty_file", "self._params.fp.file_size"],
+  ensures=[
+      Clause("C07.file_kind_and_size", lambda o, n, r: (lambda fp, req: And_(
+          iff(B(fp.metadata_only), isnone(req.source_file)),
+          Implies_(Not_(B(fp.metadata_only)), opt(fp.file_size, lambda fs: And_(
+              Eq_(fs, fs_size(FS0, src_file(o.self).p)), iff(B(fp.empty_file), fs == 0)), False)),
+          Implies_(B(fp.metadata_only), And_(Not_(B(fp.empty_file)), opt(fp.file_size, lambda fs: fs == 0, False)))))(
+          n.self._params.fp, val(o.self._put_req)), ("C07", "C16")),
+      Clause("C16.only_filestore_queries", lambda o, n, r: all(e["op"] in ("file_exists", "file_size") for e in vfs_ops(n)) and And_(
+          *[Eq_(e["path"], src_file(o.self)) for e in vfs_ops(n)]), ("C16",)),
+  ] + inv_clauses(("C07",)),
+  raises=[RaiseClause("C19.source_file_vanished", X.SourceFileDoesNotExist, props=("C10", "C19"),
+                      when=lambda o: opt(val(o.self._put_req).source_file, lambda f: Not_(fs_exists(FS0, f.p)), False),
+                      iff=True, modifies=[])],
+  effects={"vfs"}, modular=False)
+
+# summaries used inside _transaction_start (each is verified on its own above)
+for _c in CONTRACTS:
+    if _c.fq.endswith("._transaction_start"):
+        _c.contract_callees = {"SourceHandler._prepare_pdu_conf", "SourceHandler._calculate_max_file_seg_len",
+                               "SourceHandler._get_next_transfer_seq_num", "SourceHandler._prepare_file_params",
+                               "SourceHandler._check_for_originating_id"}
+_GET_SEQ.emits = lambda o, n, r: [{"kind": "seqnum", "value": n.self._params.pdu_conf.transaction_seq_num.value}]
+
+
+# ==============================================================================================
+# the sender's state machine (C10: only protocol exceptions; C16: only filestore access; invariant inductive)
+# ==============================================================================================
+def _admitted(o):
+    """what the admission check guarantees about an inserted packet (post of _check_inserted_packet)"""
+    p = o.packet
+    if p is None:
+        return True
+    h = o.self
+    return And_(pdu_wf(p), eq(p.pdu_conf.direction, Direction.TOWARDS_SENDER),
+                Eq_(p.pdu_conf.transaction_seq_num.value, h._params.pdu_conf.transaction_seq_num.value),
+                p.cls in (FinishedPdu, NakPdu, AckPdu, KeepAlivePdu),
+                Implies_(eq(mode(h), UNACK), p.cls not in (NakPdu, KeepAlivePdu)))
+
+
+def _fsm_setup(interp, roots):
+    roots["packet"] = interp.fresh_value(ADMITTED_PDU, "packet")
+
+
+FSM_MOD = NOC_MOD + TS_MOD + ["self._params.positive_ack_params.ack_timer.expired", "self._params.ack_params.step_before_retransmission",
+                              "self._params.check_timer.expired"]
+
+FSM_CALLEES = {"SourceHandler._fsm_advancement_after_packets_were_sent", "SourceHandler._transaction_start",
+               "SourceHandler._sending_file_data_fsm", "SourceHandler._handle_waiting_for_ack",
+               "SourceHandler._handle_wait_for_finish", "SourceHandler._notice_of_completion",
+               "SourceHandler._prepare_metadata_pdu"}
+
+
+def _fsm_contract(step):
+    c = C("_fsm_non_idle", instance=step.name, arg_types={**SELF, "packet": T.Opaque}, setup=_fsm_setup,
+          props=("C10", "C16", "C02"), result=None,
+          requires=REQ_INV + DEFAULT + REQ_TS_FRESH + [
+              ("busy", lambda o: ne(o.self.states.state, IDLE)), ("admitted", _admitted),
+              ("step", lambda o, step=step: step_is(o.self, step)),
+              ("env_valid", lambda o: Implies_(present(o.self._params.remote_cfg), _env_valid(o)))],
+          modifies=FSM_MOD,
+          ensures=inv_clauses(("C10",)) + [Clause("inv.ts_fresh", lambda o, n, r: ts_fresh(n.self), ("C10",))],
+          raises=[
+              RaiseClause("C10.unretrieved_truthful", X.UnretrievedPdusToBeSent, iff=True, when=lambda o: qlen(o.self) > 0,
+                          props=("C10",), modifies=[]),
+              RaiseClause("C10.source_file_vanished", X.SourceFileDoesNotExist, props=("C10",), modifies=["self.states.step"],
+                          when=lambda o: step_is(o.self, STEP.IDLE, STEP.TRANSACTION_START),
+                          post=lambda o, n: And_(inv_formula(n.self), ts_fresh(n.self))),
+              RaiseClause("C10.invalid_nak", X.InvalidNakPdu, props=("C10", "C08"),
+                          when=lambda o: o.packet is not None and o.packet.cls is NakPdu,
+                          modifies=QMOD + ["self.states.step", "self._params.cond_code_eof"],
+                          post=lambda o, n: And_(inv_formula(n.self), ts_fresh(n.self))),
+          ],
+          effects={"vfs", "user", "timer", "fault_cb", "seqnum"}, modular=True)
+    c.contract_callees = set(FSM_CALLEES)
+    c.call_default = (step is STEP.IDLE)
+    return c
+
+
+for _st in STEP:
+    _fsm_contract(_st)
